@@ -455,13 +455,12 @@ class TaskPool:
         if (
             not force
             and self.runahead_limit_point is not None
-            and (
-                base_point == self._prev_runahead_base_point
-                or self.runahead_limit_point == self.stop_point
-            )
+            and base_point == self._prev_runahead_base_point
         ):
             # No need to recompute the list of points if the base point did not
-            # change or the runahead limit is already at stop point.
+            # change. (Note the base point can move backwards, e.g. if an
+            # earlier task is triggered, so a limit that has reached the stop
+            # point may still have to come down.)
             return False
 
         # Now generate all possible cycle points from the base point and stop
